@@ -57,8 +57,13 @@ Inductive case :=
 | CX25519 (enc : bytes) (open_ok : bool) (obs : cls)
 | CEdDecrypt (msg : bytes) (open_ok : bool) (obs : cls)
 | CAes (key ct : bytes) (open_ok : bool) (obs : cls)
-(* (3) handshake; [which]: 0 incoming credentials, 1 outgoing credentials, 2 incoming proto *)
+(* (3) handshake; [which]: 0 incoming credentials, 1 outgoing credentials, 2 incoming proto, 3 outgoing proto *)
 | CHandshake (which : N) (stream : rle) (rows : list frame_row) (cred_ok write_ok : bool) (obs : cls)
+(* (3b) the exported entry point [which] under a ctx that becomes done, over a connection of [kind]
+   (0 Close interrupts a pending Read/Write, 1 Close closes the send side only, 2 Close releases nothing) whose
+   peer sends a prefix of [stream] and then stalls; our writes: [wm] 0 succeed, 1 fail, 2 park.
+   One real call per stall point: (prefix length, observed class, the returned error is ctx.Err()). *)
+| CStall (which kind wm : N) (stream : rle) (rows : list frame_row) (cred_ok : bool) (points : list (N * cls * bool))
 (* (2) keepidentity fast path: data, our identity, observed class, observed per-content summary when accepted *)
 | CKeepFast (data ours_id : bytes) (obs : cls) (summary : list (N * N * N * N))
 (* (4) pubsub: topic, class of ValidateTopic, number of segments of splitTopic, TopicOwner *)
@@ -83,7 +88,9 @@ Definition model_class (c : case) : option cls :=
       let s := expand stream in
       Some (if which =? 0 then class_of (incoming_handshake env pool_buf s)
             else if which =? 1 then class_of (outgoing_handshake env pool_buf s)
-            else class_of (incoming_proto_handshake env pool_buf s))
+            else if which =? 2 then class_of (incoming_proto_handshake env pool_buf s)
+            else class_of (outgoing_proto_handshake env pool_buf s))
+  | CStall _ _ _ _ _ _ _ => None   (* per stall point: [stall_ok] *)
   | CKeepFast data ours_id _ _ => Some (class_of (keep_identity_fast (bytes_eqb ours_id) data))
   | CTopic topic _ _ _ => Some (class_of (validate_topic topic))
   | CDedup id _ => Some (class_of (dedup_key id))
@@ -95,8 +102,28 @@ Definition model_class (c : case) : option cls :=
   | CObserved _ _ _ => None
   end.
 
+Definition kind_of (n : N) : conn_kind :=
+  if n =? 0 then KCloseInterrupts else if n =? 1 then KCloseSendOnly else KCloseInert.
+Definition wmode_of (n : N) : wmode := if n =? 0 then WOk else if n =? 1 then WFail else WBlock.
+
+(* a stall experiment: the model is run once per stall point on the bytes the peer sent before going silent *)
+Definition stall_model (which kind wm : N) (stream : rle) (rows : list frame_row) (cred_ok : bool) (n : N) : run_result :=
+  hs_entry which (kind_of kind) (env_of rows cred_ok true) (stalled (wmode_of wm)) pool_buf (stall_at n (expand stream)).
+Definition stall_ok (which kind wm : N) (stream : rle) (rows : list frame_row) (cred_ok : bool)
+  (pt : N * cls * bool) : bool :=
+  let r := stall_model which kind wm stream rows cred_ok (fst (fst pt)) in
+  cls_eqb (class_of_run r) (snd (fst pt)) && Bool.eqb (is_deadline r) (snd pt).
+
+(* the worst observed class of a stall experiment (for reporting); [spec_ok] looks at all of them *)
+Fixpoint worst (l : list cls) : cls :=
+  match l with
+  | [] => COk
+  | c :: r => if spec_C11 c then (match worst r with COk => c | w => w end) else c
+  end.
+
 Definition observed (c : case) : cls :=
   match c with
+  | CStall _ _ _ _ _ _ pts => worst (map (fun pt => snd (fst pt)) pts)
   | CX25519 _ _ o | CEdDecrypt _ _ o | CAes _ _ _ o | CHandshake _ _ _ _ _ o | CObserved _ _ o
   | CKeepFast _ _ o _ | CTopic _ o _ _ | CDedup _ o | CCreatePayload _ _ _ _ o | CAclApply _ _ o | CRanges _ _ o _ => o
   end.
@@ -134,13 +161,21 @@ Definition model_detail_ok (c : case) : bool :=
              (cnt =? k) && (if r_elements rg then ne =? k else (ne =? k) || (ne =? 0)) && go rs' os'
          | _, _ => false
          end) ranges res
+  | CStall which kind wm stream rows cred_ok pts => forallb (stall_ok which kind wm stream rows cred_ok) pts
   | _ => true
   end.
 
 Definition model_ok (c : case) : bool :=
-  match model_class c with Some m => cls_eqb m (observed c) && model_detail_ok c | None => true end.
+  match model_class c with
+  | Some m => cls_eqb m (observed c) && model_detail_ok c
+  | None => match c with CStall _ _ _ _ _ _ _ => model_detail_ok c | _ => true end
+  end.
 
-Definition spec_ok (c : case) : bool := spec_C11 (observed c).
+Definition spec_ok (c : case) : bool :=
+  match c with
+  | CStall _ _ _ _ _ _ pts => spec_C11_stall (map (fun pt => snd (fst pt)) pts)
+  | _ => spec_C11 (observed c)
+  end.
 
 Fixpoint check_from (i : N) (l : list case) : list (N * N) :=
   match l with
